@@ -14,7 +14,7 @@ EXEMPT = {
 
 def run(ctx):
     fx = ctx.facts("default")
-    fixtures.run(ctx, ['errdead', 'tasks', 'inflight', 'lockorder'])
+    fixtures.run(ctx, ['errdead', 'tasks', 'inflight', 'lockorder', 'shared'])
     witness.run_dir(ctx, "W18", "C18")
     ctx.floor("W18.witnesses", 2)
     queue.run(ctx, fx, "concurrency::work_stealing::WorkStealingQueue", "src/concurrency/work_stealing.rs",
@@ -38,6 +38,9 @@ def run(ctx):
     ctx.floor("R-LINEAR.task.sites", 4)
     linear.refusing_sinks(ctx, fx, "src/concurrency/work_stealing.rs", TASK)
     ctx.floor("R-SINK.calls", 1)
+    # pieces produced by spawned tasks are not gathered through a lock-guarded push (completion order)
+    order.shared_accumulator(ctx, fx, [f for f in fx.files() if f.startswith('src/concurrency/')])
+    ctx.floor('R-SEQ.shared.parallel_fns', 5)
     order.sequence_order(ctx, fx, ["src/concurrency/pipeline.rs", "src/concurrency/fiber_pool.rs", "src/concurrency/mod.rs",
                                    "src/concurrency/fiber_aio.rs", "src/concurrency/fiber_yield.rs",
                                    "src/concurrency/async_blob_store.rs"])
